@@ -3,7 +3,7 @@ import re
 from .coqterm import *
 from .gen_common import matcher_coq, re_coq, tup
 
-COQ_IMPORTS = "Lib.Regex Model.Validate Model.Matcher Model.Rewriter Model.Table Check.TableCheck"
+COQ_IMPORTS = "Lib.Regex Model.Validate Model.Matcher Model.Rewriter Model.Table Model.Aggregator Check.TableCheck"
 CASE_TYPE = "table_case"
 VERDICT = "table_verdict"
 
@@ -59,24 +59,30 @@ def ev_obs_coq(o):
         k, msg, err = o["bad"]
         code = err_code(err)
         bad = ctuple(cbytes(bytes.fromhex(k)), cbytes(bytes.fromhex(msg)), ctuple(cN(code[0]), cN(code[1])))
-    return ("{| eo_cnt := %s; eo_bad := %s; eo_newbad := %s; eo_routes := %s; eo_dests := %s; eo_aggs := %s; eo_val_ok := %s; eo_ts_ok := %s; eo_ts := %s |}"
+    return ("{| eo_cnt := %s; eo_bad := %s; eo_newbad := %s; eo_routes := %s; eo_dests := %s; eo_aggs := %s; eo_val_ok := %s; eo_ts_ok := %s; eo_ts := %s; eo_bits := %s |}"
             % (clist([cZ(x) for x in o["cnt"]], "Z"), copt(bad, "(bytes * bytes * (N * N))"), cnat(o.get("newbad", 0)),
                clist([ctuple(cnat(int(i)), cbytes(bytes.fromhex(l))) for i, l in o.get("routes") or []], "(nat * bytes)"),
                clist([ctuple(cnat(r), cnat(d), cZ(n)) for r, d, n in o.get("dests") or []], "(nat * nat * Z)"),
                clist([cZ(x) for x in o.get("aggs") or []], "Z"),
-               cbool(o.get("val_ok", False)), cbool(o.get("ts_ok", False)), cN(o.get("ts32", 0))))
+               cbool(o.get("val_ok", False)), cbool(o.get("ts_ok", False)), cN(o.get("ts32", 0)), cZ(int(o.get("bits") or 0))))
 
 
 def case_coq(c, obs, mask):
     evs = []
     for ev, o in zip(c["events"], obs["events"]):
+        if ev["t"] in ("now", "tick"):
+            evs.append(ctuple("%s %s" % ("ENow" if ev["t"] == "now" else "ETick", cN(ev["now"])), ev_obs_coq(o)))
+            continue
         con = "ELine" if ev["t"] == "line" else "EAgg"
         evs.append(ctuple("%s %s" % (con, cbytes(bytes.fromhex(ev["b"]))), ev_obs_coq(o)))
     keys = None
     if c.get("stall_aggs"):
         keys = clist([cbytes(bytes.fromhex(k)) for k in obs.get("agg_keys") or []], "bytes")
-    return ("{| tc_mask := %s; tc_table := %s; tc_events := %s; tc_mutated := %s; tc_agg_keys := %s |}"
-            % (cN(mask), table_coq(c), clist(evs, "(event * ev_obs)"), cbool(obs.get("mutated", False)), copt(keys, "(list bytes)")))
+    FN = {"avg": "FAvg", "count": "FCount", "delta": "FDelta", "derive": "FDerive", "last": "FLast", "max": "FMax", "min": "FMin",
+          "stdev": "FStdev", "sum": "FSum", "percentiles": "FPercentiles"}
+    cfgs = clist([ctuple(FN[a["fun"]], cN(a["interval"]), cN(a["wait"])) for a in c.get("aggs", [])], "agg_cfg")
+    return ("{| tc_mask := %s; tc_table := %s; tc_aggcfg := %s; tc_events := %s; tc_mutated := %s; tc_agg_keys := %s |}"
+            % (cN(mask), table_coq(c), cfgs, clist(evs, "(event * ev_obs)"), cbool(obs.get("mutated", False)), copt(keys, "(list bytes)")))
 
 
 MASK_COUNTERS, MASK_BAD, MASK_ROUTES, MASK_LINES, MASK_DESTS, MASK_AGGS = 1, 2, 4, 8, 16, 32
